@@ -353,7 +353,7 @@ class GInts(NumberEncoding):
             elif code == 1:
                 yield f.read_ushort_le()
             elif code == 2:
-                yield unpack_uint_le(f.read(3) + "\x00")[0]
+                yield unpack_uint_le(f.read(3) + b"\x00")[0]
             else:
                 yield f.read_uint_le()
 
